@@ -159,6 +159,10 @@ fn render_arg(a: &WArg, be: bool, o: &mut Vec<u8>) {
             };
             if matches!(k, RKind::SintFx(_) | RKind::UintFx(_)) {
                 o.extend_from_slice(&a.filler[16..16 + 4 + bytes]);
+            } else if matches!(k, RKind::Float(_)) && a.flags & 2 != 0 && a.filler[27] & 1 != 0 {
+                // a sender that sets FIXP on a float and really writes quantization and offset in front of the value
+                // (the format defines fixed point for integers only; whatever a parser makes of it must be stable)
+                o.extend_from_slice(&a.filler[16..16 + 4 + bytes.max(4)]);
             }
             o.extend_from_slice(&a.filler[..bytes]);
         }
